@@ -248,6 +248,10 @@ func (s *SCION) DecodeFromBytes(data []byte, df gopacket.DecodeFeedback) error {
 	if err != nil {
 		return err
 	}
+	if actual := s.Path.Len(); actual != pathLen {
+		return serrors.New("header length inconsistent with path length",
+			"hdrBytes", hdrBytes, "pathLen", pathLen, "actualPathLen", actual)
+	}
 	s.Contents = data[:hdrBytes]
 	s.Payload = data[hdrBytes:]
 
